@@ -17,6 +17,8 @@
      [op |-> "when_all", a, b]              both values -> sum; otherwise the first non-value signal:
                                             one of the children's errors / stopped
      [op |-> "when_all_vector", a, b]       the same for a std::vector of senders
+     [op |-> "drop_wa", a, b], [op |-> "drop_es", s]   drop_operation_state directly on when_all / ensure_started
+                                            (built without type erasure in between)
    Den(t) = the set of completion signals the composition may deliver (a set only because when_all
    with two failing children may report either).  Exactly one signal of Den(t) must reach the
    receiver; [ch, v] with ch \in {"value","error","stopped"}.                                 *)
@@ -44,11 +46,11 @@ Den(t) ==
       [] t.op = "then" -> {ApplyThen(t.f, r) : r \in Den(t.s)}
       [] t.op = "let_value" -> {ApplyLetValue(t.g, r) : r \in Den(t.s)}
       [] t.op = "let_error" -> {ApplyLetError(t.h, r) : r \in Den(t.s)}
-      [] t.op \in {"continues_on", "ensure_started", "split1", "drop_op_state"} -> Den(t.s)
+      [] t.op \in {"continues_on", "ensure_started", "split1", "drop_op_state", "drop_es"} -> Den(t.s)
       [] t.op = "split2" -> {IF r.ch = "value" THEN Val(2 * r.v) ELSE r : r \in Den(t.s)}
       [] t.op = "split2r" -> {IF r.ch = "value" THEN Val(2 * r.v)
                               ELSE IF r.ch = "error" THEN Val(2 * (100 + r.v)) ELSE r : r \in Den(t.s)}
-      [] t.op \in {"when_all", "when_all_vector"} ->
+      [] t.op \in {"when_all", "when_all_vector", "drop_wa"} ->
             LET A == Den(t.a)  B == Den(t.b) IN
             UNION {{IF ra.ch = "value" /\ rb.ch = "value" THEN Val(ra.v + rb.v)
                     ELSE IF ra.ch = "value" THEN rb
@@ -65,15 +67,15 @@ Unary(S) ==
     {[op |-> "then", f |-> f, s |-> s] : f \in {"inc", "dbl", "throw1"}, s \in S}
     \cup {[op |-> "let_value", g |-> g, s |-> s] : g \in {"plus10", "tofail", "throw2"}, s \in S}
     \cup {[op |-> "let_error", h |-> h, s |-> s] : h \in {"recover", "refail"}, s \in S}
-    \cup {[op |-> o, s |-> s] : o \in {"continues_on", "ensure_started", "split1", "split2", "split2r", "drop_op_state"}, s \in S}
+    \cup {[op |-> o, s |-> s] : o \in {"continues_on", "ensure_started", "split1", "split2", "split2r", "drop_op_state", "drop_es"}, s \in S}
 \* when_all_vector asks its (single) child sender type whether it can send stopped; the type-erased stages
 \* the conformance run builds terms from declare that they cannot, so its children are stop-free terms
 RECURSIVE NoStop(_)
 NoStop(x) == CASE x.op = "stop" -> FALSE
                [] x.op \in {"just", "fail"} -> TRUE
-               [] x.op \in {"when_all", "when_all_vector"} -> NoStop(x.a) /\ NoStop(x.b)
+               [] x.op \in {"when_all", "when_all_vector", "drop_wa"} -> NoStop(x.a) /\ NoStop(x.b)
                [] OTHER -> NoStop(x.s)
-Binary(S, T) == {[op |-> "when_all", a |-> a, b |-> b] : a \in S, b \in T}
+Binary(S, T) == {[op |-> o, a |-> a, b |-> b] : o \in {"when_all", "drop_wa"}, a \in S, b \in T}
                 \cup {[op |-> "when_all_vector", a |-> a, b |-> b] : a \in {x \in S : NoStop(x)}, b \in {x \in T : NoStop(x)}}
 T1 == Leaves
 T2 == T1 \cup Unary(T1) \cup Binary(T1, T1)
